@@ -34,7 +34,10 @@ class C05(Prop):
         r = res["main"]
         viol = []
         reached = False
+        declared = set()
         for op, out in zip(plan["ops"], r.get("outcomes") or []):
+            if op["op"] == "metric" and out.get("status") == "ok":
+                declared.add(op["P"])
             if op["op"] != "solve":
                 continue
             reached = reached or bool(out.get("ncalls"))
@@ -42,9 +45,13 @@ class C05(Prop):
             lic = ((op.get("env") or {}).get("licence") or {})
             known_wrapper = op["cfg"].get("wrapper", "cvxpy").lower() in ("cvxpy", "mosek")
             if out.get("status") == "exc" and not injected and not out.get("ncalls") and known_wrapper \
-                    and not lic.get("expire_after_checks"):
-                # a legal model, no fault injected, and nothing reached the solver
-                viol.append({"oracle": "O-DELIVERY", "signature": "declared-model-does-not-reach-the-solver:" + str(out.get("exc_type")),
+                    and not lic.get("expire_after_checks") and op["P"] in declared:
+                # a legal model (it has at least a performance metric: the minimiser may not shrink it into an empty
+                # PEP, which no back-end accepts), no fault injected, and nothing reached the solver
+                msg = str(out.get("msg") or "")
+                where = msg.split(":")[0].strip() if ":" in msg[:40] else ""
+                viol.append({"oracle": "O-DELIVERY", "signature": "declared-model-does-not-reach-the-solver:" +
+                             str(out.get("exc_type")) + (":" + where if where.isidentifier() else ""),
                              "detail": {"msg": out.get("msg"), "wrapper": op["cfg"].get("wrapper")}})
                 break
         return viol, {"nontrivial": reached, "noverdict": not reached}
